@@ -94,6 +94,10 @@ async fn checkpoint_update_git<'a>(
                 pending.insert(change.name.clone(), file::get_file_checksum(&p).await?);
             }
             checkpoint.pending = Some(pending);
+        } else {
+            // nothing is pending now; entries recorded by an earlier update describe a
+            // state that no longer exists and would mask later changes to those paths
+            checkpoint.pending = None;
         }
     }
     checkpoint.save()?;
